@@ -732,6 +732,70 @@ def py_eval_tables(m, rolls, final):
                 av={s: {a: mean(x) for a, x in d.items()} for s, d in av.items()})
 
 
+def py_det_oracle(m, cap):
+    """unique trajectory of a deterministic policy on a deterministic MDP and what evaluation must report"""
+    tv = py_truncv(m, cap)
+    s = m["p0"].index(max(m["p0"]))
+    traj = [s]
+    for _ in range(cap):
+        if m["abs"][s]:
+            break
+        a = [x for x in range(m["K"]) if m["W"][s][x] > 0][0]
+        s = [u for u in range(m["N"]) if m["P"][s][a][u] > 0][0]
+        traj.append(s)
+    sv, occ = {}, {}
+    for i, x in enumerate(traj):
+        sv.setdefault(x + 1, []).append(tv[cap - i][x])
+        occ[x + 1] = occ.get(x + 1, 0) + 1
+    return dict(iv=tv[cap][traj[0]], traj=[x + 1 for x in traj], sv={x: sum(v) / len(v) for x, v in sv.items()}, occ=occ)
+
+
+def frac_weights(fr_list):
+    den = 1
+    for x in fr_list:
+        den = den * x.denominator // math.gcd(den, x.denominator)
+    w = [int(x * den) for x in fr_list]
+    g = 0
+    for x in w:
+        g = math.gcd(g, x)
+    return [x // g for x in w] if g else w
+
+
+def py_polsupp(m, s, ag):
+    """0-based support of the modelled policy at state s / agent weights ag (independent of the TLA+ model)"""
+    K = m["K"]
+    if m["kind"] == "mdp":
+        return {a for a in range(K) if m["W"][s][a] > 0}
+    if m["pk"] == "ctrl":
+        return {a for a in range(K) if sum(ag[n] * m["CA"][n][a] for n in range(m["NN"])) > 0}
+    tot = sum(ag)
+    b = [F(x, tot) for x in ag] if tot else [F(0)] * m["N"]
+    if m["pk"] == "qb":
+        v = [sum(b[x] * m["QV"][x][a] for x in range(m["N"])) for a in range(K)]
+    else:
+        g = gen.gamma(m)
+        v = []
+        for a in range(K):
+            val = pb.exact_reward(m, b, a)
+            for o in range(m["NO"]):
+                j = pb.exact_joint(m, b, a, o)
+                val += g * max(sum(j[n] * m["AV"][d][n] for n in range(m["N"])) for d in range(m["ND"]))
+            v.append(val)
+    mx = max(v)
+    return {a for a in range(K) if v[a] == mx}
+
+
+def py_update(m, ag, a, o):
+    if m["kind"] == "mdp":
+        return []
+    if m["pk"] == "ctrl":
+        NN = m["NN"]
+        return frac_weights([F(sum(ag[n] * m["CA"][n][a] * m["CU"][n][a][o][n2] for n in range(NN))) for n2 in range(NN)])
+    tot = sum(ag)
+    b = [F(x, tot) for x in ag] if tot else [F(0)] * m["N"]
+    return frac_weights(pb.exact_joint(m, b, a, o))
+
+
 def as_map(x):
     """ToJson prints a function with domain 1..n as an array and any other as an object"""
     if isinstance(x, list):
@@ -998,9 +1062,12 @@ class Pipeline:
         if not v["detagree"] and not rollouts_rejected:
             raise TLCFailure(f"valid roll-outs of a deterministic instance do not average to the oracle: {v}")
         if v["det"]:
-            tv = py_truncv(m, tr["cap"])
-            if fr(v["dor"]["iv"]) != tv[tr["cap"]][m["p0"].index(max(m["p0"]))]:
-                raise TLCFailure("TLA+ truncated value differs from the Fraction implementation")
+            mine = py_det_oracle(m, tr["cap"])
+            d = v["dor"]
+            tl = dict(iv=fr(d["iv"]), traj=list(d["traj"]), sv={s: fr(x) for s, x in as_map(d["sv"]).items()},
+                      occ=as_map(d["occ"]))
+            if tl != mine:
+                raise TLCFailure(f"TLA+ deterministic oracle differs from the Fraction implementation: {tl} vs {mine}")
         # --- verdicts
         for nt in out.get("notes", []):
             self.flag(nt, ji)
@@ -1168,6 +1235,20 @@ def run_mc(ctx, insts, cases):
             mine = py_returns([h["r"] for h in b["hist"]] + [0], g)
             if [fr(x) for x in b["rets"]] != mine:
                 raise TLCFailure(f"TLA+ returns differ from the Fraction recursion on case {cid}")
+        # the modelled policy and agent update against independent Fraction implementations: at every node of the
+        # roll-out tree the set of actions the machine took is the policy's support, and nag is the update
+        taken = {}
+        for b in behs[cid]:
+            pre = ()
+            for h in b["hist"]:
+                taken.setdefault((pre, h["s"], tuple(h["ag"])), set()).add(h["a"] - 1)
+                if list(h["nag"]) != py_update(m, list(h["ag"]), h["a"] - 1, h["o"] - 1):
+                    raise TLCFailure(f"TLA+ Update differs from the Fraction implementation on case {cid}: {h}")
+                pre = pre + ((h["s"], h["a"], h["ns"], h["o"]),)
+        for (pre, s, ag), acts in taken.items():
+            if acts != py_polsupp(m, s - 1, list(ag)):
+                raise TLCFailure(f"TLA+ PolSupp {sorted(acts)} differs from the Fraction implementation "
+                                 f"{sorted(py_polsupp(m, s - 1, list(ag)))} on case {cid} at {s}, {ag}")
         if case["oracle"]:
             o = oracles.get(cid)
             if o is None:
